@@ -19,10 +19,15 @@ variable {ρ : Type}
 /-- the tunables as regenerated from the CURRENT headers by tools/trules/req.py -/
 def genTun : Tun :=
   { minK := DSGen.req_MIN_K, initSections := DSGen.req_INIT_NUM_SECTIONS, multiplier := DSGen.req_MULTIPLIER,
-    lazy := DSGen.req_LAZY_COMPRESSION }
+    lazy := DSGen.req_LAZY_COMPRESSION, initCoinRandom := DSGen.req_INITIAL_COIN_RANDOM }
+
+/-- the same constants with the PINNED shape of the compactor constructor (`coin_(false)`): used by the witnesses and examples, which
+are statements about that shape whatever the headers have now -/
+def pinTun : Tun := { genTun with initCoinRandom := false }
 
 /-- the decidable side conditions hold for the current header values (re-checked whenever DSGen/Req.lean changes) -/
 theorem req_genTun_ok : TunOK genTun := by constructor <;> decide
+theorem req_pinTun_ok : TunOK pinTun := by constructor <;> decide
 
 /-- the model refines the specification: the ghost record of everything fed to a sketch is exactly `inputOf` -/
 theorem req_input_refines {T : Tun} (hT : TunOK T) (F : SecFns ρ) (ops : List Op) (coins : List Bool) (id : Nat) (s : Sketch ρ)
@@ -54,7 +59,7 @@ theorem req_minmax_exact {T : Tun} (hT : TunOK T) (F : SecFns ρ) (ops : List Op
     · rw [e] at m2; simp at m2
     · exact Or.inr ⟨lo, hi, m1, n1, m2, n2, fun y hy => ⟨m3 y hy, n3 y hy⟩⟩
 
-example : ∃ s : Sketch Unit, (run genTun ⟨fun _ => (), id, fun _ => 0⟩ [.new 0 4 true, .upd 0 5, .upd 0 (-3), .new 1 4 true, .upd 1 9, .merge 0 1] []).1.get 0 = some s
+example : ∃ s : Sketch Unit, (run pinTun ⟨fun _ => (), id, fun _ => 0⟩ [.new 0 4 true, .upd 0 5, .upd 0 (-3), .new 1 4 true, .upd 1 9, .merge 0 1] []).1.get 0 = some s
     ∧ s.n = 3 ∧ s.minItem = some (-3) ∧ s.maxItem = some 9 := ⟨_, rfl, by decide +kernel⟩
 
 /-- the code never throws "compaction range error": in every reachable state a nominally full compactor has a
@@ -74,10 +79,11 @@ checking that it holds anything), so the loop `for (it = begin(); it != end(); +
 Witness: the history `new 0 4 lra`. Replayed on the real code by `./check c07req` (oracle key `iter-begin-ne-end-on-empty`). -/
 theorem req_weight_conserved_full_false : ¬ req_weight_conserved_full := by
   intro h
-  have := h genTun req_genTun_ok ⟨fun _ => (), id, fun _ => 0⟩ [.new 0 4 false] [] 0 _ rfl
+  have := h pinTun req_pinTun_ok ⟨fun _ => (), id, fun _ => 0⟩ [.new 0 4 false] [] 0 _ rfl
   obtain ⟨l, hl, _⟩ := this
-  have hnone : (Sketch.new genTun (⟨fun _ => (), id, fun _ => 0⟩ : SecFns Unit) 4 false).iterate = none := by decide +kernel
-  rw [hnone] at hl; exact absurd hl (by simp)
+  have hnone : (Sketch.new pinTun (⟨fun _ => (), id, fun _ => 0⟩ : SecFns Unit) 4 false false).iterate = none := by decide +kernel
+  have e : (Acc.init []).peek = false := rfl
+  rw [e, hnone] at hl; exact absurd hl (by simp)
 
 /-- the proved part: for every NON-EMPTY sketch the iterator reaches `end()` after exactly `num_retained` valid reads and the
 weights `2^lg_weight` sum to n (all histories, all coins).  Missing for the full statement: the empty sketch (see above). -/
@@ -90,7 +96,7 @@ theorem req_weight_conserved_partial {T : Tun} (hT : TunOK T) (F : SecFns ρ) (o
   · rw [length_allPairs, h2.ret]
   · rw [sum_weights_allPairs, h2.tw]
 
-example : ∃ s : Sketch Unit, (run genTun ⟨fun _ => (), id, fun _ => 0⟩ ([.new 0 4 false] ++ (List.range 30).map (fun i => Op.upd 0 (Int.ofNat i))) [true]).1.get 0 = some s
+example : ∃ s : Sketch Unit, (run pinTun ⟨fun _ => (), id, fun _ => 0⟩ ([.new 0 4 false] ++ (List.range 30).map (fun i => Op.upd 0 (Int.ofNat i))) [true]).1.get 0 = some s
     ∧ s.n = 30 ∧ s.compactors.length = 2 ∧ s.numRetained = 28 := ⟨_, rfl, by decide +kernel⟩
 
 /-- and exactly the empty sketches are the ones whose iteration fails -/
@@ -128,6 +134,7 @@ theorem req_bookkeeping_exact {T : Tun} (hT : TunOK T) (F : SecFns ρ) (ops : Li
 
 /-- compression is not lazy in the current headers (`LAZY_COMPRESSION = false`), as `req_retained_bound` needs -/
 theorem req_genTun_nonlazy : genTun.lazy = false := by decide
+theorem req_pinTun_nonlazy : pinTun.lazy = false := by decide
 
 /-- retained_bound: after EVERY public operation `num_retained < max_nom_size` (the sum of the nominal capacities
 `MULTIPLIER · num_sections · section_size` of the compactors), and every compactor's section parameters are a point of the
@@ -143,7 +150,7 @@ theorem req_retained_bound {T : Tun} (hT : TunOK T) (hlazy : T.lazy = false) (F 
   exact ⟨this.lt, this.keff, this.sec⟩
 
 /-- non-vacuity of `SecOK`: an exact schedule that keeps the section size -/
-example : SecOK genTun (⟨id, id, id⟩ : SecFns Nat) := by
+example : SecOK pinTun (⟨id, id, id⟩ : SecFns Nat) := by
   have hi : ∀ j (x : Nat), iterN (id : Nat → Nat) j x = x := by
     intro j x; induction j with
     | zero => rfl
@@ -207,7 +214,7 @@ theorem req_exact_mode_exact {T : Tun} (hT : TunOK T) (F : SecFns ρ) (ops : Lis
   rw [h2.ex c hc]
   simp [entered0, entered0L, hc, cntP]
 
-example : ∃ s : Sketch Unit, (run genTun ⟨fun _ => (), id, fun _ => 0⟩ [.new 0 4 false, .upd 0 5, .upd 0 1, .upd 0 5] []).1.get 0 = some s
+example : ∃ s : Sketch Unit, (run pinTun ⟨fun _ => (), id, fun _ => 0⟩ [.new 0 4 false, .upd 0 5, .upd 0 1, .upd 0 5] []).1.get 0 = some s
     ∧ s.isEstimationMode = false ∧ s.rankNum 5 false = 1 ∧ s.rankNum 5 true = 3 := ⟨_, rfl, by decide +kernel⟩
 
 end DS.Req
